@@ -253,6 +253,20 @@ static void scenario(const std::string &file, const std::string &text, bool stri
             auto far = annotator->item(all[0], annotator->itemCount(all[0]) + 2);
             observe(annotator.get(), "annotator.item(id, index out of range)");
             explained(far == nullptr || far->type() == CellmlElementType::UNDEFINED, annotator.get(), "annotator.item(id, index)", file);
+            // a typed lookup with an identifier that exists but belongs to an element of another type
+            for (const auto &anId : all) {
+                auto it0 = annotator->item(anId, 0);
+                if (it0 != nullptr && it0->type() != CellmlElementType::UNDEFINED && it0->type() != CellmlElementType::COMPONENT
+                    && it0->type() != CellmlElementType::COMPONENT_REF && it0->type() != CellmlElementType::MATH && annotator->itemCount(anId) == 1) {
+                    size_t before = annotator->issueCount();
+                    auto wrong = annotator->component(anId);
+                    observe(annotator.get(), "annotator.component(id of another element type)");
+                    printf("S annotator.component(id of another element type) %s\n", wrong == nullptr ? "fail" : "ok");
+                    if (wrong == nullptr && (annotator->issueCount() == 0 || annotator->issueCount() == before))
+                        printf("A unexplained failure: annotator.component(id of another element type) returned null without a new issue (%s)\n", file.c_str());
+                    break;
+                }
+            }
             auto farc = annotator->component(all[0], annotator->itemCount(all[0]) + 1);
             observe(annotator.get(), "annotator.component(id, index out of range)");
             explained(farc == nullptr, annotator.get(), "annotator.component(id, index)", file);
